@@ -1,3 +1,4 @@
+#include <csignal>
 #include "run/runner.h"
 #include "sim/simnet.h"
 #include <cstdio>
@@ -81,6 +82,14 @@ static bool de_viol(const std::string &line, sim::Violation &v) {
 	return true;
 }
 
+// wall-clock watchdog per simulated run: the simulator bounds every loop that makes system calls (spin oracle, syscall cap), but
+// not a loop inside libksi that calls nothing; SIGALRM then terminates the worker and the run is reported like a crash
+static unsigned run_watchdog_s() {
+	const char *s = getenv("VERIF_RUN_WATCHDOG_S");
+	unsigned v = s ? (unsigned)atoi(s) : 0;
+	return v ? v : 120;
+}
+
 Isolated run_isolated(const Plan &p) {
 	Isolated r;
 	Engine *e = engine_by_name(p.engine);
@@ -97,7 +106,9 @@ Isolated run_isolated(const Plan &p) {
 		int efd = open(errp, O_WRONLY | O_CREAT | O_TRUNC, 0644);
 		if (efd >= 0) { dup2(efd, 2); }
 		FILE *f = fopen(outp, "w");
+		alarm(run_watchdog_s()); // a run that makes no simulated progress at all (a loop without system calls) ends as a crash
 		RunResult rr = e->execute(p, false);
+		alarm(0);
 		fprintf(f, "H %llx %d\n", (unsigned long long)rr.hash, rr.inconclusive ? 1 : 0);
 		for (auto &v : rr.violations) fprintf(f, "V %s\n", ser_viol(v).c_str());
 		fclose(f);
@@ -230,7 +241,9 @@ static void worker_main(int w, int W, const Job &job, int tier, uint64_t base, u
 		fprintf(f, "S %llu\n", (unsigned long long)i);
 		fflush(f);
 		Plan p = e->generate_at(i, run_seed(base, job, i), job.property, tier);
+		alarm(run_watchdog_s());
 		RunResult rr = e->execute(p, false);
+		alarm(0);
 		fprintf(f, "R %llu %llx %d %lld %d\n", (unsigned long long)i, (unsigned long long)rr.hash, rr.nontrivial ? 1 : 0, (long long)rr.sim_ms, rr.inconclusive ? 1 : 0);
 		for (auto &v : rr.violations) fprintf(f, "V %llu %s\n", (unsigned long long)i, ser_viol(v).c_str());
 		for (auto &c : rr.counters) counters[c.first] += c.second;
@@ -433,14 +446,14 @@ static void handle_violation(const Job &job, int tier, uint64_t base, uint64_t i
 		crash_text = a.stderr_head;
 		v.property = job.property; v.rule = "sanitizer-or-crash";
 		// key: first frame of the report that lies in libksi or the kind of error
-		std::string key = "crash";
+		std::string key = a.signal == SIGALRM ? "hang" : "crash";
 		size_t k = crash_text.find("ERROR: AddressSanitizer: ");
 		if (k != std::string::npos) { size_t e2 = crash_text.find_first_of(" \n", k + 25); key = crash_text.substr(k + 25, e2 - (k + 25)); }
 		else if ((k = crash_text.find("runtime error: ")) != std::string::npos) { size_t e2 = crash_text.find('\n', k); key = "ubsan:" + crash_text.substr(k + 15, std::min<size_t>(60, e2 - (k + 15))); }
 		size_t fpos = crash_text.find("/repo/src/ksi/");
 		if (fpos != std::string::npos) { size_t e2 = crash_text.find_first_of(" \n)", fpos); std::string loc = crash_text.substr(fpos + 14, e2 - (fpos + 14)); size_t colon = loc.find(':'); key += "@" + loc.substr(0, colon); }
 		v.key = key;
-		v.detail = "process aborted while executing the plan (sanitizer report or crash)";
+		v.detail = a.signal == SIGALRM ? "the run made no progress for the watchdog time (a loop without system calls); the process was terminated" : "process aborted while executing the plan (sanitizer report or crash)";
 	} else {
 		RunResult r1 = e->execute(p, false), r2 = e->execute(p, false);
 		bool has1 = false, has2 = false;
